@@ -28,9 +28,9 @@ func init() {
 	})
 	register(&CheckSpec{
 		ID: "C04", Fn: c04,
-		Rule:        "one evaluation = one position reached by play whose incremental observables are compared with a fresh position from its FEN and with sums over the board; key function: two-way dictionary canonical(placement,side,rights,ep) <-> key over played positions, FEN-built positions (incl. FENs with ep square), transposed move orders and minimally different neighbours; distinct = distinct canonical identities entered in the dictionary",
+		Rule:        "one evaluation = one position reached by play (incl. games of 1100+ plies with a one/two-ply look-ahead taken back after every move near each wrap of the 512-entry history) whose incremental observables are compared with a fresh position from its FEN and with sums over the board; key function: two-way dictionary canonical(placement,side,rights,ep) <-> key over played positions, FEN-built positions (incl. FENs with ep square), transposed move orders and minimally different neighbours; distinct = distinct canonical identities entered in the dictionary",
 		Assumptions: []string{"published per-piece values = PieceType.ValueOf / PosMidValue / PosEndValue / GamePhaseValue; GamePhase = min(24, sum)"},
-		Required:    []string{"played_positions", "fen_with_ep", "transposition_pairs", "neighbour_pairs", "dict_entries", "promotion_plies_full_officers"},
+		Required:    []string{"played_positions", "fen_with_ep", "transposition_pairs", "neighbour_pairs", "dict_entries", "promotion_plies_full_officers", "long_games", "long_game_lookaheads"},
 		MinEvals:    10000,
 	})
 }
@@ -444,6 +444,54 @@ func c04(c *Ctx) {
 		if fresh.GetEnPassantSquare() != types.SqNone {
 			rep.Inc("fen_with_ep")
 		}
+	}
+	// very long games with a look-ahead after every move (as a search does on the game
+	// position): move sequences include moves taken back, and the position's history buffer
+	// (512 entries) wraps several times
+	longGames := []struct {
+		fen string
+		cyc []string
+	}{
+		{rc.StartFEN, []string{"g1f3", "g8f6", "f3g1", "f6g8"}},
+		{rc.StartFEN, []string{"b1c3", "b8c6", "c3b1", "c6b8", "g1h3", "g8h6", "h3g1", "h6g8"}},
+		{"r3k2r/pppppppp/8/8/8/8/PPPPPPPP/R3K2R w KQkq - 0 1", []string{"a1b1", "a8b8", "b1a1", "b8a8"}},
+		{"4k3/8/8/8/8/8/8/R3K2R w KQ - 3 40", []string{"h1h2", "e8d8", "h2h1", "d8e8"}},
+	}
+	for gi, lg := range longGames {
+		if !c.Mine(gi) {
+			continue
+		}
+		over24 = false
+		p := engPos(lg.fen)
+		lmg := movegen.NewMoveGen()
+		lr := SubRng(c.Seed, "c04/long", gi)
+		n := c.Size(1100, 3000)
+		for ply := 0; ply < n; ply++ {
+			m := lmg.GetMoveFromUci(p, lg.cyc[ply%len(lg.cyc)])
+			if m == types.MoveNone {
+				rep.Inconclusive("long game generator: move not accepted at ply " + fmt.Sprint(ply))
+				break
+			}
+			p.DoMove(m)
+			near := ply%255 > 235 || ply%255 < 20 || ply%256 > 236 || ply%256 < 20
+			if near || lr.Chance(0.1) {
+				// look-ahead: one or two plies down and back
+				ml := lmg.GenerateLegalMoves(p, movegen.GenAll)
+				if ml.Len() > 0 {
+					m1 := ml.At(lr.Intn(ml.Len()))
+					p.DoMove(m1)
+					ml2 := lmg.GenerateLegalMoves(p, movegen.GenAll)
+					if ml2.Len() > 0 && lr.Chance(0.8) {
+						p.DoMove(ml2.At(lr.Intn(ml2.Len())))
+						p.UndoMove()
+					}
+					p.UndoMove()
+				}
+				rep.Inc("long_game_lookaheads")
+				checkFresh(p, "long-game-lookahead", map[string]interface{}{"start": lg.fen, "cycle": lg.cyc, "ply": ply + 1})
+			}
+		}
+		rep.Inc("long_games")
 	}
 	nPlay := c.Size(700, 75000)
 	nSynth := c.Size(2500, 600000)
